@@ -8,6 +8,7 @@ def drv_args(*fact_dicts):
     args = {}
     for d in fact_dicts:
         args.update(d)
+    kvspec.EXP_NE0 = args.get("wireExpNe0") == "yes" or args.get("wireGet") == "ne0"
     return ["%s=%s" % kv for kv in sorted(args.items())]
 
 
@@ -17,10 +18,11 @@ def cases_of(c):
 
 
 def run_oracle(ctx, c, pid, known, exempt_model_marked=False):
-    """Independent reference over implementation replies.  Lines the model attributes to a LISTED
-    finding are skipped (and make the oracle forget the keys involved).  Returns
-    (checked_lines, deviations) and records a violation for the first deviation."""
-    checked, devs = 0, []
+    """Independent reference over implementation replies, ALWAYS run (also when implementation and
+    model disagree somewhere: then each case is judged up to its first mismatching line).  Lines the
+    model attributes to a LISTED finding are skipped (the oracle forgets the keys involved).
+    Returns (evaluated_lines, deviations, stats) and records a violation for the first deviation."""
+    devs, stats = [], {}
     raw = []
     if exempt_model_marked:
         try:
@@ -28,41 +30,72 @@ def run_oracle(ctx, c, pid, known, exempt_model_marked=False):
                 raw = f.read().split("\n")
         except OSError:
             raw = []
+    mism = set(c.mismatch)
     for cs in cases_of(c):
-        ops = [c.ops[i] for i in cs]
-        impl = [c.impl[i] if i < len(c.impl) else "<missing>" for i in cs]
-        skip = set()
+        cut = len(cs)
         for j, i in enumerate(cs):
+            if i in mism:
+                cut = j + 1           # the mismatching line itself is still an implementation reply
+                break
+        ops = [c.ops[i] for i in cs[:cut]]
+        impl = [c.impl[i] if i < len(c.impl) else "<missing>" for i in cs[:cut]]
+        skip = set()
+        for j, i in enumerate(cs[:cut]):
+            if i in mism:
+                continue
             fl = c.flags[i] if i < len(c.flags) else []
             if fl and all(f in known for f in fl):
                 skip.add(j)
             elif exempt_model_marked and i < len(raw) and "\t#D:" in raw[i]:
                 skip.add(j)
-        bad = kvspec.check_case(ops, impl, skip)
-        checked += len(cs) - 1
+        bad = kvspec.check_case(ops, impl, skip, stats)
         for (j, op, exp, got) in bad:
             devs.append({"case": ops[0], "line": j, "op": op, "expected": exp, "got": got,
                          "ops": ops[:j + 1], "impl": impl[:j + 1]})
     if devs:
         d = devs[0]
-        ctx.violation("Spec oracle (independent reference over implementation replies): `%s` answered `%s`, documented semantics give `%s`"
+        ctx.violation("implementation violates the property (independent reference over its replies): `%s` answered `%s`, documented semantics give `%s`"
                       % (d["op"], d["got"], d["expected"]),
                       {"correspondence": pid, "ops": d["ops"], "impl": d["impl"], "expected": d["expected"],
-                       "deviations": len(devs)}, tag="oracle")
-    return checked, devs
+                       "deviations": len(devs)}, tag="impl")
+    return stats.get("evaluated", 0), devs, stats
 
 
-def spec_violated_factory(known):
-    """for report_mismatch: does the implementation's reply at the mismatching line (or before)
-    contradict the reference?  (rep has ops/impl/model up to the mismatch)"""
+def spec_violated_factory(known, ctx=None):
+    """for report_mismatch: does the implementation's reply at the mismatching line contradict the
+    reference?  rep has ops/impl/model/flags of the case up to the mismatch; lines the model
+    attributes to listed findings are handed to the oracle as accounted for."""
     def spec_violated(rep):
-        ops, impl, model = rep["ops"], rep["impl"], rep["model"]
-        skip = set()
-        # lines on which implementation and model agree and which the model attributed to a finding
-        # cannot be told from the replay dict (flags are stripped); be conservative: only the last line
+        ops, impl = rep["ops"], rep["impl"]
+        flags = rep.get("flags") or []
+        skip = {j for j, fl in enumerate(flags[:-1]) if fl and all(f in known for f in fl)}
         bad = kvspec.check_case(ops, impl, skip)
         for (j, op, exp, got) in bad:
             if j == len(ops) - 1:
                 return "`%s` answered `%s`, documented semantics give `%s`" % (op, got, exp)
         return None
     return spec_violated
+
+
+def prefer_decidable_mismatch(ctx, known, decide=None):
+    """report_mismatch looks at the FIRST mismatching line only.  When the reference cannot judge that
+    one (it does not know enough of the state there), look for a later mismatching line it can judge
+    and make that the reported one — a failing input beats `no-failing-input-found`."""
+    mf = getattr(ctx, "mismatch_first", None)
+    if mf is None:
+        return
+    domain, drv_args, c, first = mf
+    decide = decide or spec_violated_factory(known, ctx)
+    seen_cases = set()
+    for i in c.mismatch[:400]:
+        cs = K.case_of(c, i)
+        if cs[0] in seen_cases:
+            continue          # only the first mismatch of a case: later lines follow from it
+        seen_cases.add(cs[0])
+        rep = K.case_replay(c, cs, upto=i)
+        ctx.mismatch_first = (domain, drv_args, c, i)
+        if decide(rep):
+            rep.update({"correspondence": domain, "drv_args": list(drv_args), "mismatches": len(c.mismatch)})
+            ctx.pending_mismatch = rep
+            return
+    ctx.mismatch_first = mf
